@@ -12,7 +12,7 @@ It provides Operator classes.
 
 from . import Token
 from .parenthesis import Parenthesis, _update_n_args
-from ..errors import ParenthesesError, FormulaError
+from ..errors import ParenthesesError, FormulaError, TokenError
 # noinspection PyCompatibility
 import regex
 import collections
@@ -88,6 +88,13 @@ class Operator(Token):
                 _update_n_args(stack)
 
     def ast(self, tokens, stack, builder):
+        if self.name == '%' and tokens:  # A percent sign needs its operand.
+            from .operand import Operand
+            t = tokens[-1]
+            if not (isinstance(t, Operand) or (
+                    isinstance(t, Parenthesis) and t.has_end
+            ) or (isinstance(t, Operator) and t.name == '%')):
+                raise TokenError()
         super(Operator, self).ast(tokens, stack, builder)
         self.update_name(tokens, stack)
         pred = self.pred
